@@ -419,6 +419,17 @@ func (x *c10) sendCovered() {
 					if unlockIdx < 0 {
 						continue
 					}
+					// ... and launched something: a path that starts no goroutine has nothing to wait for
+					launched := false
+					for j := range q.Events {
+						f := &q.Events[j]
+						if f.Kind == "go" {
+							launched = true // any goroutine at all, whatever it is given
+						}
+					}
+					if !launched && waitIdx < 0 {
+						continue
+					}
 					if waitIdx < 0 {
 						fail("a path leaves the region without waiting for the goroutines")
 					} else if waitIdx > unlockIdx {
